@@ -2,6 +2,7 @@ import GlyProofs.Front.CreateLemmas
 import GlyProofs.Smiles.Shape
 import GlyProofs.Smiles.OneCentre
 import GlyModel.Api.Query
+import GlyProofs.Poly.PlanRefines
 /-
   C13 — Reducing-end anomer and SMILES start atom change only what they should. (Property theorems only.)
 -/
@@ -60,5 +61,23 @@ theorem C13_one_centre_whole_glycan (t1 t2 : List Tok) (a b : Atom) (kids : List
       ∃ pre post, M.atoms = pre ++ [a] ++ post ∧ M'.atoms = pre ++ [b] ++ post := by
   obtain ⟨M', h1, h2, pre, post, h3, h4⟩ := specTree_oneOff t1 t2 a b kids M hm hs
   exact ⟨M', h1, h2, pre, post, h3, h4⟩
+
+open Gly.Plan in
+/-- **The option reaches exactly one call**: in the binding plan (Model of `Merger.mark` / `merge_int`, `C01_linkage_plan`; tied by the
+    call sequences observed for every root-anomer option) the label `Merger.merge` builds from `root_orientation` is looked at by
+    the entry action of node 0 only – every other call (which carbon is marked with which marker pair, which child takes which
+    anomer, where each child's SMILES starts, ring offsets) is the same for every value of the option. -/
+theorem C13_option_only_reaches_root {α : Type} (T : Trav α) (w : WalkCfg) (F : GF) (a : α) (ro1 ro2 : List Char) :
+    ∃ tail : Option (List Call),
+      specWhole T w F (rootLabel ro1) a = tail.map (T.pre 0 (rootLabel ro1) a ++ ·) ∧
+      specWhole T w F (rootLabel ro2) a = tail.map (T.pre 0 (rootLabel ro2) a ++ ·) :=
+  ⟨specPlan T w F 0 1 0 a, rfl, rfl⟩
+
+open Gly.Plan in
+/-- … and that one call is `to_chirality(first letter of the option, lower-cased)` on the reducing-end residue, made only when the
+    residue has no anomer of its own (a written suffix wins). -/
+theorem C13_root_call (undef : Nat → Bool) (ns : Nat) (c : Char) (rest : List Char) :
+    (markTrav undef ns).pre 0 (rootLabel (c :: rest)) () = if undef 0 then [Call.chir 0 c.toLower] else [] := by
+  simp [markTrav, rootLabel]
 
 end Gly.Props.C13
